@@ -65,7 +65,13 @@ def main(argv):
         # engines are independent; run the cheap ones first so build errors surface early
         for eng, mod in (("static", static_engine), ("verus", verus_engine), ("kani", kani_adapter), ("exec", exec_engine)):
             if eng in by_engine:
-                outcomes.update(mod.run(ctx, by_engine[eng]))
+                try:
+                    outcomes.update(mod.run(ctx, by_engine[eng]))
+                except Undecided as ex:
+                    # a tool limit / lost anchor / build error of ONE engine must not hide what the others find
+                    log("UNDECIDED engine %s (%s): %s" % (eng, prop, ex))
+                    for o in by_engine[eng]:
+                        outcomes.setdefault(o.id, {"status": "undecided", "reason": str(ex)[:600]})
     except Undecided as ex:
         log("UNDECIDED (%s): %s" % (prop, ex))
         write_evidence(prop, a.tier, seed, obls, outcomes, notes + ["UNDECIDED: %s" % ex], t0, evid_path, None)
